@@ -28,3 +28,9 @@ Example C26_nonvacuous : Bytes [0; 10; 34; 65; 92; 200; 255] /\
   escape_bytes [0; 10; 34; 65; 92; 200; 255]
   = [92;48;48;48; 92;110; 92;34; 65; 92;92; 92;51;49;48; 92;51;55;55].
 Proof. exact escape_example. Qed.
+
+(* a corollary of the round trip: the escaping is injective - two different byte strings never render as the same
+   default_value text *)
+Theorem C26_escape_injective : forall a b, Bytes a -> Bytes b -> escape_bytes a = escape_bytes b -> a = b.
+Proof. exact escape_injective_lemma. Qed.
+Print Assumptions C26_escape_injective.
